@@ -227,6 +227,9 @@ pub fn run_script(script: &Value, tags: &TagFiles, out: &mut dyn Write) -> bool 
     let c11_fresh = script["c11_fresh"].as_bool().unwrap_or(false);
     let mut fresh: Option<(HttpConnection<ScriptStream>, ScriptStream)> = None;
     let drain_after_read = script["drain_after_read"].as_bool().unwrap_or(false);
+    // completed requests stay queued in the connection until the end of the script (a caller that does
+    // not pop after every read); they are popped and logged by one `popall` event before the drop
+    let defer_pop = script["defer_pop"].as_bool().unwrap_or(false);
     let mut line = json!({"e": "new", "run": script["run"], "fam": script["fam"], "cmp": script["cmp"],
                           "limit": script["limit"], "buf": crate::BUF, "note": script["note"]});
     writeln!(out, "{}", line).unwrap();
@@ -267,7 +270,7 @@ pub fn run_script(script: &Value, tags: &TagFiles, out: &mut dyn Write) -> bool 
                         Err(_) => (obs::panic_result(), true),
                     };
                     let mut popped = vec![];
-                    if !panicked {
+                    if !panicked && !defer_pop {
                         while let Some(rq) = conn.pop_parsed_request() {
                             popped.push(obs::request(&rq));
                             if keep {
@@ -282,7 +285,7 @@ pub fn run_script(script: &Value, tags: &TagFiles, out: &mut dyn Write) -> bool 
                     line = json!({"e": "read", "kind": lk, "bytes": obs::bytes(&delivered),
                                   "fds": if first && fd_tags.is_array() { fd_tags.take() } else { json!([]) },
                                   "res": res, "recvs": st.recv_calls, "writes": st.write_calls,
-                                  "window": st.last_window, "popped": popped, "first": first,
+                                  "window": st.last_window, "popped": popped, "first": first, "pop": !defer_pop,
                                   "pending": if panicked { json!(false) } else { json!(conn.pending_write()) },
                                   "digest": if panicked { json!({"none": true}) } else { digest(&conn) }});
                     let more = !st.rxq.is_empty();
@@ -390,6 +393,16 @@ pub fn run_script(script: &Value, tags: &TagFiles, out: &mut dyn Write) -> bool 
             }
             _ => {}
         }
+    }
+    if defer_pop && ok {
+        let mut popped = vec![];
+        while let Some(rq) = conn.pop_parsed_request() {
+            popped.push(obs::request(&rq));
+            if keep {
+                held_requests.push(rq);
+            }
+        }
+        writeln!(out, "{}", json!({"e": "popall", "popped": popped})).unwrap();
     }
     let unscripted = stream.0.borrow().unscripted;
     drop(held_requests);
